@@ -4,8 +4,8 @@
    starting value of the anonymous counter.  Proved: compiling the same component from another
    starting value succeeds as well and yields the same object with _Anon(ctr+k) renamed to
    _Anon(ctr'+k), the same number of anonymous sequences (C18_compile_renumber, a simulation over
-   all statements incl. the deferred wildcard and register; hypothesis: the program neither
-   defines nor mentions names of the reserved form _Anon...), and the emitted specification of the
+   all statements incl. the deferred wildcard and register; it needs the compiler's rejection of
+   user names of the reserved form _Anon..., without which the theorem is false: see D12), and the emitted specification of the
    renamed object is the emitted specification with the same renaming applied to every name
    (C18_emit_renumber); anonymous names are an injective function of the counter; all names
    defined in one emitted document are distinct.  NOT provable here: that the implementation has
@@ -23,7 +23,7 @@ Theorem C18_names_unique_in_output : forall c, WF c -> WF2 c -> wf_pil (emit_com
 Proof. exact emit_wf_pil. Qed.
 Print Assumptions C18_names_unique_in_output.
 
-Theorem C18_compile_renumber : forall ctr ctr' prefix d body c ctr1, forallb stmt_pure body = true -> decl_ok d = true ->
+Theorem C18_compile_renumber : forall ctr ctr' prefix d body c ctr1,
   compile_comp ctr prefix d body = OK (c, ctr1) ->
   compile_comp ctr' prefix d body = OK (r_comp (rho_c ctr ctr1 ctr') c, ctr' + (ctr1 - ctr)).
 Proof. exact compile_renumber. Qed.
